@@ -251,7 +251,7 @@ impl MT935 {
                 }
 
                 // Extract currency (first 3 characters)
-                let currency = &value[..3];
+                let currency = value.get(..3).unwrap_or("");
 
                 // Validate currency is alphabetic
                 if !currency.chars().all(|c| c.is_ascii_alphabetic()) {
